@@ -52,12 +52,29 @@ const SM9_U256_N_MINUS_ONE_BARRETT_MU: [u64; 4] = [
     0x67980e0beb5759a6,
 ];
 
+//@section spec local
+// the code constants are the standard's parameters / the Barrett constants floor(2^512 / N), floor(2^512 / (N-1))
+proof fn mn_consts()
+    ensures val4(SM9_N@) == N9(), val4(SM9_N_NEG@) == r256() - N9(), val4(SM9_N_MINUS_ONE@) == N9() - 1, val4(SM9_N_MINUS_TWO@) == N9() - 2,
+        val4(SM9_ONE@) == 1,
+{
+    assert(val4(SM9_N@) == N9() && val4(SM9_N_NEG@) == r256() - N9() && val4(SM9_N_MINUS_ONE@) == N9() - 1 && val4(SM9_N_MINUS_TWO@) == N9() - 2) by(compute);
+    assert(val4(SM9_ONE@) == 1) by(compute);
+}
 //@section spec
 use vstd::arithmetic::div_mod::*;
 use vstd::arithmetic::mul::*;
 #[verifier::external_body]
 fn shim_from_be_u64(b: &[u8]) -> (r: u64) requires b@.len() == 8 ensures r as int == be_val(b@) { u64::from_be_bytes(b.try_into().unwrap()) }
 // little-endian limb values of 5 and 10 limbs, Horner form with the literal 2^64
+// ---- small modular-arithmetic library (generic modulus m) ----
+pub proof fn mn_small_mod(x: int, m: int) requires 0 <= x < m ensures x % m == x
+{ lemma_small_mod(x as nat, m as nat); }
+pub proof fn mn_mod_add_mult(a: int, k: int, m: int) requires m > 0 ensures (a + k * m) % m == a % m
+{
+    lemma_mod_multiples_vanish(k, a, m);
+    assert(m * k + a == a + k * m) by(nonlinear_arith);
+}
 pub open spec fn val5(a: Seq<u64>) -> int {
     a[0] as int + 0x1_0000_0000_0000_0000int * (a[1] as int + 0x1_0000_0000_0000_0000int * (a[2] as int + 0x1_0000_0000_0000_0000int * (a[3] as int + 0x1_0000_0000_0000_0000int * (a[4] as int))))
 }
@@ -65,13 +82,201 @@ pub open spec fn val10(a: Seq<u64>) -> int {
     a[0] as int + 0x1_0000_0000_0000_0000int * (a[1] as int + 0x1_0000_0000_0000_0000int * (a[2] as int + 0x1_0000_0000_0000_0000int * (a[3] as int + 0x1_0000_0000_0000_0000int * (a[4] as int
     + 0x1_0000_0000_0000_0000int * (a[5] as int + 0x1_0000_0000_0000_0000int * (a[6] as int + 0x1_0000_0000_0000_0000int * (a[7] as int + 0x1_0000_0000_0000_0000int * (a[8] as int + 0x1_0000_0000_0000_0000int * (a[9] as int)))))))))
 }
+// ---- 32-bit digit strings (schoolbook multiplication), as in unit sm9_limbs but for any digit count ----
+pub open spec fn mn_pow32(k: int) -> int decreases k { if k <= 0 { 1 } else { 0x1_0000_0000int * mn_pow32(k - 1) } }
+pub open spec fn mn_val32(s: Seq<u64>, n: int) -> int decreases n { if n <= 0 { 0 } else { mn_val32(s, n - 1) + s[n - 1] as int * mn_pow32(n - 1) } }
+pub open spec fn mn_hv32(s: Seq<u64>, lo: int, n: int) -> int decreases n - lo { if lo >= n { 0 } else { s[lo] as int + 0x1_0000_0000int * mn_hv32(s, lo + 1, n) } }
+pub open spec fn mn_rowsum(x: int, b: Seq<u64>, i: int, j: int) -> int decreases j {
+    if j <= 0 { 0 } else { mn_rowsum(x, b, i, j - 1) + x * (b[j - 1] as int) * mn_pow32(i + j - 1) }
+}
+pub open spec fn mn_rows(a: Seq<u64>, b: Seq<u64>, i: int, w: int) -> int decreases i {
+    if i <= 0 { 0 } else { mn_rows(a, b, i - 1, w) + mn_rowsum(a[i - 1] as int, b, i - 1, w) }
+}
+pub proof fn mn_pow32_add(a: int, b: int)
+    requires a >= 0, b >= 0
+    ensures mn_pow32(a + b) == mn_pow32(a) * mn_pow32(b)
+    decreases b
+{
+    if b == 0 { assert(mn_pow32(0) == 1); }
+    else {
+        mn_pow32_add(a, b - 1);
+        assert(mn_pow32(a + b) == 0x1_0000_0000int * mn_pow32(a + b - 1));
+        assert(mn_pow32(b) == 0x1_0000_0000int * mn_pow32(b - 1));
+        assert(0x1_0000_0000int * (mn_pow32(a) * mn_pow32(b - 1)) == mn_pow32(a) * (0x1_0000_0000int * mn_pow32(b - 1))) by(nonlinear_arith);
+    }
+}
+pub proof fn mn_pow32_pos(k: int) ensures mn_pow32(k) >= 1 decreases k {
+    if k > 0 { mn_pow32_pos(k - 1); }
+}
+pub proof fn mn_val32_update(s: Seq<u64>, k: int, v: u64, n: int)
+    requires 0 <= k < s.len(), 0 <= n <= s.len()
+    ensures mn_val32(s.update(k, v), n) == mn_val32(s, n) + (if k < n { (v as int - s[k] as int) * mn_pow32(k) } else { 0 })
+    decreases n
+{
+    if n > 0 {
+        mn_val32_update(s, k, v, n - 1);
+        if k == n - 1 {
+            assert((v as int) * mn_pow32(k) == (s[k] as int) * mn_pow32(k) + (v as int - s[k] as int) * mn_pow32(k)) by(nonlinear_arith);
+        }
+    }
+}
+pub proof fn mn_val32_zero(s: Seq<u64>, n: int)
+    requires 0 <= n <= s.len(), forall|k: int| 0 <= k < n ==> s[k] == 0
+    ensures mn_val32(s, n) == 0
+    decreases n
+{
+    if n > 0 { mn_val32_zero(s, n - 1); assert(0 * mn_pow32(n - 1) == 0); }
+}
+pub proof fn mn_step(sk: int, ab: int, u: int, sk2: int, u2: int, pk: int)
+    requires sk2 + u2 * 0x1_0000_0000int == sk + ab + u,
+    ensures (sk2 - sk) * pk + u2 * (0x1_0000_0000int * pk) == ab * pk + u * pk
+{
+    assert((sk2 - sk) * pk + u2 * (0x1_0000_0000int * pk) == (sk2 - sk + u2 * 0x1_0000_0000int) * pk) by(nonlinear_arith);
+    assert((sk + ab + u - sk) * pk == ab * pk + u * pk) by(nonlinear_arith);
+}
+pub proof fn mn_val32_hv32(s: Seq<u64>, lo: int, n: int)
+    requires 0 <= lo <= n
+    ensures mn_val32(s, n) == mn_val32(s, lo) + mn_pow32(lo) * mn_hv32(s, lo, n)
+    decreases n - lo
+{
+    if lo == n {
+        assert(mn_pow32(lo) * 0 == 0);
+    } else {
+        mn_val32_hv32(s, lo + 1, n);
+        let h = mn_hv32(s, lo + 1, n);
+        let p = mn_pow32(lo);
+        let d = s[lo] as int;
+        assert(mn_pow32(lo + 1) == 0x1_0000_0000int * p);
+        assert(mn_val32(s, lo + 1) == mn_val32(s, lo) + d * p);
+        assert(mn_hv32(s, lo, n) == d + 0x1_0000_0000int * h);
+        assert(d * p + (0x1_0000_0000int * p) * h == p * (d + 0x1_0000_0000int * h)) by(nonlinear_arith);
+    }
+}
+pub open spec fn mn_split_at(d: Seq<u64>, l: Seq<u64>, k: int) -> bool {
+    l[k] as int == d[2 * k] as int + 0x1_0000_0000int * d[2 * k + 1] as int && d[2 * k] < 0x1_0000_0000 && d[2 * k + 1] < 0x1_0000_0000
+}
+pub open spec fn mn_join_at(l: Seq<u64>, d: Seq<u64>, k: int) -> bool { l[k] as int == d[2 * k] as int + 0x1_0000_0000int * d[2 * k + 1] as int }
+pub proof fn mn_digits10(d: Seq<u64>, l: Seq<u64>)
+    requires d.len() == 10, l.len() == 5,
+        l[0] as int == d[0] as int + 0x1_0000_0000int * d[1] as int, l[1] as int == d[2] as int + 0x1_0000_0000int * d[3] as int,
+        l[2] as int == d[4] as int + 0x1_0000_0000int * d[5] as int, l[3] as int == d[6] as int + 0x1_0000_0000int * d[7] as int,
+        l[4] as int == d[8] as int + 0x1_0000_0000int * d[9] as int,
+    ensures mn_val32(d, 10) == val5(l)
+{
+    mn_val32_hv32(d, 0, 10);
+    assert(mn_val32(d, 0) == 0 && mn_pow32(0) == 1);
+    reveal_with_fuel(mn_hv32, 11);
+}
+pub proof fn mn_digits20(d: Seq<u64>, l: Seq<u64>)
+    requires d.len() == 20, l.len() == 10,
+        l[0] as int == d[0] as int + 0x1_0000_0000int * d[1] as int, l[1] as int == d[2] as int + 0x1_0000_0000int * d[3] as int,
+        l[2] as int == d[4] as int + 0x1_0000_0000int * d[5] as int, l[3] as int == d[6] as int + 0x1_0000_0000int * d[7] as int,
+        l[4] as int == d[8] as int + 0x1_0000_0000int * d[9] as int, l[5] as int == d[10] as int + 0x1_0000_0000int * d[11] as int,
+        l[6] as int == d[12] as int + 0x1_0000_0000int * d[13] as int, l[7] as int == d[14] as int + 0x1_0000_0000int * d[15] as int,
+        l[8] as int == d[16] as int + 0x1_0000_0000int * d[17] as int, l[9] as int == d[18] as int + 0x1_0000_0000int * d[19] as int,
+    ensures mn_val32(d, 20) == val10(l)
+{
+    mn_val32_hv32(d, 0, 20);
+    assert(mn_val32(d, 0) == 0 && mn_pow32(0) == 1);
+    reveal_with_fuel(mn_hv32, 21);
+}
+pub proof fn mn_rowsum_lemma(x: int, b: Seq<u64>, i: int, j: int)
+    requires i >= 0, j >= 0
+    ensures mn_rowsum(x, b, i, j) == (x * mn_pow32(i)) * mn_val32(b, j)
+    decreases j
+{
+    if j == 0 {
+        assert((x * mn_pow32(i)) * 0 == 0);
+    } else {
+        mn_rowsum_lemma(x, b, i, j - 1);
+        mn_pow32_add(i, j - 1);
+        let bj = b[j - 1] as int;
+        let pi = mn_pow32(i);
+        let pj = mn_pow32(j - 1);
+        let v = mn_val32(b, j - 1);
+        assert(mn_val32(b, j) == v + bj * pj);
+        assert(mn_rowsum(x, b, i, j) == mn_rowsum(x, b, i, j - 1) + x * bj * mn_pow32(i + j - 1));
+        assert((x * pi) * v + x * bj * (pi * pj) == (x * pi) * (v + bj * pj)) by(nonlinear_arith);
+    }
+}
+pub proof fn mn_rows_lemma(a: Seq<u64>, b: Seq<u64>, i: int, w: int)
+    requires i >= 0, w >= 0
+    ensures mn_rows(a, b, i, w) == mn_val32(a, i) * mn_val32(b, w)
+    decreases i
+{
+    if i == 0 {
+        assert(0 * mn_val32(b, w) == 0);
+    } else {
+        mn_rows_lemma(a, b, i - 1, w);
+        mn_rowsum_lemma(a[i - 1] as int, b, i - 1, w);
+        let v = mn_val32(b, w);
+        let ai = a[i - 1] as int;
+        let p = mn_pow32(i - 1);
+        let w0 = mn_val32(a, i - 1);
+        assert(mn_val32(a, i) == w0 + ai * p);
+        assert(w0 * v + (ai * p) * v == (w0 + ai * p) * v) by(nonlinear_arith);
+    }
+}
+// ---- powers ----
+pub proof fn mn_pow_range(x: int, e: nat, m: int) requires m > 0 ensures 0 <= pow_mod(x, e, m) < m decreases e
+{
+    if e == 0 { lemma_mod_bound(1, m); } else { lemma_mod_bound(pow_mod(x, (e - 1) as nat, m) * x, m); }
+}
+pub proof fn mn_pow_add(x: int, i: nat, j: nat, m: int) requires m > 0
+    ensures pow_mod(x, i + j, m) == (pow_mod(x, i, m) * pow_mod(x, j, m)) % m
+    decreases j
+{
+    let pi = pow_mod(x, i, m);
+    mn_pow_range(x, i, m);
+    if j == 0 {
+        lemma_mul_mod_noop_general(pi, 1, m);
+        assert(pi * 1 == pi);
+        mn_small_mod(pi, m);
+    } else {
+        let pj = pow_mod(x, (j - 1) as nat, m);
+        mn_pow_add(x, i, (j - 1) as nat, m);
+        assert(((i + j) - 1) as nat == i + (j - 1) as nat);
+        lemma_mul_mod_noop_general(pi * pj, x, m);
+        assert((pi * pj) * x == pi * (pj * x)) by(nonlinear_arith);
+        lemma_mul_mod_noop_general(pi, pj * x, m);
+    }
+}
+pub open spec fn mn_p2(j: nat) -> int decreases j { if j == 0 { 1 } else { 2 * mn_p2((j - 1) as nat) } }
+pub proof fn mn_p2_64() ensures mn_p2(64) == 0x1_0000_0000_0000_0000int { assert(mn_p2(64) == 0x1_0000_0000_0000_0000int) by(compute); }
+// value of the k most significant limbs
+pub open spec fn mn_top(e: Seq<u64>, k: int) -> int decreases k { if k <= 0 { 0 } else { mn_top(e, k - 1) * 0x1_0000_0000_0000_0000int + e[4 - k] as int } }
+pub proof fn mn_top4(e: Seq<u64>) ensures mn_top(e, 4) == val4(e), mn_top(e, 0) == 0
+{
+    assert(mn_top(e, 0) == 0);
+    assert(mn_top(e, 1) == mn_top(e, 0) * 0x1_0000_0000_0000_0000int + e[3] as int);
+    assert(mn_top(e, 2) == mn_top(e, 1) * 0x1_0000_0000_0000_0000int + e[2] as int);
+    assert(mn_top(e, 3) == mn_top(e, 2) * 0x1_0000_0000_0000_0000int + e[1] as int);
+    assert(mn_top(e, 4) == mn_top(e, 3) * 0x1_0000_0000_0000_0000int + e[0] as int);
+}
+pub proof fn mn_bits(w: u64)
+    ensures (w & 0x8000000000000000 != 0) == (w >= 0x8000000000000000u64),
+        w < 0x8000000000000000u64 ==> (w << 1) as int == 2 * (w as int),
+        w >= 0x8000000000000000u64 ==> (w << 1) as int == 2 * (w as int) - 0x1_0000_0000_0000_0000int,
+{
+    assert((w & 0x8000000000000000 != 0) == (w >= 0x8000000000000000u64)) by(bit_vector);
+    assert(w < 0x8000000000000000u64 ==> (w << 1) == 2 * w) by(bit_vector);
+    assert(w >= 0x8000000000000000u64 ==> (w << 1) == 2 * (w - 0x8000000000000000u64)) by(bit_vector);
+}
 //@section code gm-sm9/src/fields.rs
-#[verifier::external_body]
 fn mod_n_add(a: &U256, b: &U256) -> (r: U256)
     requires val4(a@) + val4(b@) < r256() + N9()
     ensures val4(r@) % N9() == (val4(a@) + val4(b@)) % N9(),
         val4(a@) + val4(b@) < 2 * N9() ==> val4(r@) == (val4(a@) + val4(b@)) % N9(),
 {
+    proof {
+        mn_consts(); lemma_params9();
+        lemma_val4_bounds(a@); lemma_val4_bounds(b@);
+        assert forall|s: Seq<u64>| s.len() == 4 implies 0 <= #[trigger] val4(s) < r256() by { lemma_val4_bounds(s); }
+        let s = val4(a@) + val4(b@);
+        mn_mod_add_mult(s, -1, N9());
+        if 0 <= s - N9() < N9() { mn_small_mod(s - N9(), N9()); }
+        if s < N9() { mn_small_mod(s, N9()); }
+    }
     let (r, c) = u256_add(a, b);
     if c {
         
@@ -83,19 +288,26 @@ fn mod_n_add(a: &U256, b: &U256) -> (r: U256)
     r
 }
 
-#[verifier::external_body]
 fn mod_n_sub(a: &U256, b: &U256) -> (r: U256)
     requires val4(a@) < N9(), val4(b@) < N9()
     ensures val4(r@) == (val4(a@) - val4(b@)) % N9(),
 {
+    proof {
+        mn_consts(); lemma_params9();
+        lemma_val4_bounds(a@); lemma_val4_bounds(b@);
+        let d = val4(a@) - val4(b@);
+        mn_mod_add_mult(d, 1, N9());
+        if d >= 0 { mn_small_mod(d, N9()); } else { mn_small_mod(d + N9(), N9()); }
+    }
     let (mut r, c) = u256_sub(a, b);
+    proof { lemma_val4_bounds(r@); }
     if c {
         r = u256_sub(&r, &SM9_N_NEG).0
     }
+    proof { lemma_val4_bounds(r@); }
     r
 }
 
-#[verifier::external_body]
 fn u320_mul(a: &[u64; 5], b: &[u64; 5]) -> (ret: [u64; 10])
     ensures val10(ret@) == val5(a@) * val5(b@)
 {
@@ -104,26 +316,115 @@ fn u320_mul(a: &[u64; 5], b: &[u64; 5]) -> (ret: [u64; 10])
     let mut ret: [u64; 10] = [0; 10];
     let mut s: [u64; 20] = [0; 20];
 
-    for i in 0..5 {
+    for i in 0..5
+        invariant
+            forall|k: int| 0 <= k < 20 ==> s[k] == 0,
+            forall|k: int| 0 <= k < i ==> mn_split_at(a_@, a@, k),
+            forall|k: int| 0 <= k < i ==> mn_split_at(b_@, b@, k),
+    {
+        let ghost a0 = a_@;
+        let ghost b0 = b_@;
+        proof {
+            let x = a[i as int];
+            let y = b[i as int];
+            assert((x & 0xffffffff) < 0x1_0000_0000 && (x >> 32) < 0x1_0000_0000 && (x & 0xffffffff) + 0x1_0000_0000 * (x >> 32) == x) by(bit_vector);
+            assert((y & 0xffffffff) < 0x1_0000_0000 && (y >> 32) < 0x1_0000_0000 && (y & 0xffffffff) + 0x1_0000_0000 * (y >> 32) == y) by(bit_vector);
+        }
         a_[2 * i] = a[i] & 0xffffffff;
         b_[2 * i] = b[i] & 0xffffffff;
         a_[2 * i + 1] = a[i] >> 32;
         b_[2 * i + 1] = b[i] >> 32;
+        proof {
+            assert forall|k: int| 0 <= k < i + 1 implies mn_split_at(a_@, a@, k) by {
+                if k < i { assert(mn_split_at(a0, a@, k)); assert(a_[2 * k] == a0[2 * k] && a_[2 * k + 1] == a0[2 * k + 1]); }
+            }
+            assert forall|k: int| 0 <= k < i + 1 implies mn_split_at(b_@, b@, k) by {
+                if k < i { assert(mn_split_at(b0, b@, k)); assert(b_[2 * k] == b0[2 * k] && b_[2 * k + 1] == b0[2 * k + 1]); }
+            }
+        }
+    }
+    proof {
+        assert(mn_split_at(a_@, a@, 0) && mn_split_at(a_@, a@, 1) && mn_split_at(a_@, a@, 2) && mn_split_at(a_@, a@, 3) && mn_split_at(a_@, a@, 4));
+        assert(mn_split_at(b_@, b@, 0) && mn_split_at(b_@, b@, 1) && mn_split_at(b_@, b@, 2) && mn_split_at(b_@, b@, 3) && mn_split_at(b_@, b@, 4));
+        assert(forall|k: int| 0 <= k < 10 ==> a_[k] < 0x1_0000_0000 && b_[k] < 0x1_0000_0000);
+        mn_digits10(a_@, a@);
+        mn_digits10(b_@, b@);
+        mn_val32_zero(s@, 20);
     }
 
     let mut u = 0;
-    for i in 0..10 {
+    for i in 0..10
+        invariant
+            forall|k: int| 0 <= k < 10 ==> a_[k] < 0x1_0000_0000 && b_[k] < 0x1_0000_0000,
+            forall|k: int| 0 <= k < 20 ==> s[k] < 0x1_0000_0000,
+            forall|k: int| i + 10 <= k < 20 ==> s[k] == 0,
+            mn_val32(s@, 20) == mn_rows(a_@, b_@, i as int, 10),
+    {
         u = 0;
-        for j in 0..10 {
+        for j in 0..10
+            invariant
+                0 <= i < 10,
+                forall|k: int| 0 <= k < 10 ==> a_[k] < 0x1_0000_0000 && b_[k] < 0x1_0000_0000,
+                forall|k: int| 0 <= k < 20 ==> s[k] < 0x1_0000_0000,
+                forall|k: int| i + 10 <= k < 20 ==> s[k] == 0,
+                u < 0x1_0000_0000,
+                mn_val32(s@, 20) + u as int * mn_pow32(i as int + j as int) == mn_rows(a_@, b_@, i as int, 10) + mn_rowsum(a_[i as int] as int, b_@, i as int, j as int),
+        {
+            let ghost s_old = s@;
+            let ghost u_old = u as int;
+            proof {
+                assert(a_[i as int] as int * b_[j as int] as int <= 0xffff_ffffint * 0xffff_ffffint) by(nonlinear_arith)
+                    requires a_[i as int] < 0x1_0000_0000, b_[j as int] < 0x1_0000_0000;
+            }
             u = s[i + j] + a_[i] * b_[j] + u;
+            let ghost t = u as int;
             s[i + j] = u & 0xffffffff;
             u >>= 32;
+            proof {
+                let tt = t as u64;
+                assert((tt & 0xffffffff) + (tt >> 32) * 0x1_0000_0000 == tt && (tt & 0xffffffff) < 0x1_0000_0000 && (tt >> 32) < 0x1_0000_0000) by(bit_vector);
+                let k = i as int + j as int;
+                mn_val32_update(s_old, k, s[k], 20);
+                mn_pow32_pos(k);
+                assert(mn_pow32(k + 1) == 0x1_0000_0000int * mn_pow32(k));
+                mn_step(s_old[k] as int, a_[i as int] as int * b_[j as int] as int, u_old, s[k] as int, u as int, mn_pow32(k));
+                assert(mn_rowsum(a_[i as int] as int, b_@, i as int, j as int + 1)
+                    == mn_rowsum(a_[i as int] as int, b_@, i as int, j as int) + (a_[i as int] as int) * (b_[j as int] as int) * mn_pow32(k));
+            }
         }
+        let ghost s_old = s@;
         s[i + 10] = u;
+        proof {
+            mn_val32_update(s_old, i as int + 10, u, 20);
+            assert(mn_rows(a_@, b_@, i as int + 1, 10) == mn_rows(a_@, b_@, i as int, 10) + mn_rowsum(a_[i as int] as int, b_@, i as int, 10));
+        }
+    }
+    proof {
+        mn_rows_lemma(a_@, b_@, 10, 10);
     }
 
-    for i in 0..10 {
+    for i in 0..10
+        invariant
+            forall|k: int| 0 <= k < 20 ==> s[k] < 0x1_0000_0000,
+            forall|k: int| 0 <= k < i ==> mn_join_at(ret@, s@, k),
+    {
+        let ghost r0 = ret@;
+        proof {
+            let x = s[2 * i as int];
+            let y = s[2 * i as int + 1];
+            assert(((y << 32) | x) == x + 0x1_0000_0000 * y) by(bit_vector) requires x < 0x1_0000_0000, y < 0x1_0000_0000;
+        }
         ret[i] = (s[2 * i + 1] << 32) | s[2 * i];
+        proof {
+            assert forall|k: int| 0 <= k < i + 1 implies mn_join_at(ret@, s@, k) by {
+                if k < i { assert(mn_join_at(r0, s@, k)); assert(ret[k] == r0[k]); }
+            }
+        }
+    }
+    proof {
+        assert(mn_join_at(ret@, s@, 0) && mn_join_at(ret@, s@, 1) && mn_join_at(ret@, s@, 2) && mn_join_at(ret@, s@, 3) && mn_join_at(ret@, s@, 4)
+            && mn_join_at(ret@, s@, 5) && mn_join_at(ret@, s@, 6) && mn_join_at(ret@, s@, 7) && mn_join_at(ret@, s@, 8) && mn_join_at(ret@, s@, 9));
+        mn_digits20(s@, ret@);
     }
     ret
 }
@@ -177,30 +478,75 @@ fn mod_n_mul(a: &U256, b: &U256) -> (r: U256)
     r
 }
 
-#[verifier::external_body]
 fn mod_n_pow(a: &U256, e: &U256) -> (r: U256)
     requires val4(a@) < N9()
     ensures val4(r@) == pow_mod(val4(a@), val4(e@) as nat, N9()),
 {
     let mut r = SM9_ONE;
-    for i in (0..4).rev() {
+    let ghost av = val4(a@);
+    let ghost mut acc: int = 0;
+    proof {
+        mn_consts(); lemma_params9();
+        mn_small_mod(1, N9());
+        mn_top4(e@);
+    }
+    for i in it: (0..4).rev()
+        invariant
+            val4(r@) < N9(), val4(a@) == av, av < N9(),
+            acc >= 0, acc == mn_top(e@, it.index@ as int),
+            val4(r@) == pow_mod(av, acc as nat, N9()),
+    {
         let mut w = e[i];
-        for _ in 0..64 {
+        let ghost x = acc * 0x1_0000_0000_0000_0000int + w as int;
+        let ghost mut m: int = 1;
+        for _ in jt: 0..64
+            invariant
+                val4(r@) < N9(), val4(a@) == av, av < N9(),
+                acc >= 0, m == mn_p2(jt.index@ as nat),
+                acc * 0x1_0000_0000_0000_0000int + w as int == x * m,
+                val4(r@) == pow_mod(av, acc as nat, N9()),
+        {
+            let ghost w0 = w;
             r = mod_n_mul(&r, &r);
+            proof {
+                lemma_params9();
+                mn_pow_add(av, acc as nat, acc as nat, N9());
+                mn_bits(w0);
+                assert((2 * acc) as nat == (acc as nat) + (acc as nat));
+                lemma_mod_bound(pow_mod(av, acc as nat, N9()) * pow_mod(av, acc as nat, N9()), N9());
+            }
             if w & 0x8000000000000000 != 0 {
                 r = mod_n_mul(&r, a);
+                proof {
+                    assert(((2 * acc + 1) as nat - 1) as nat == (2 * acc) as nat);
+                    assert(pow_mod(av, (2 * acc + 1) as nat, N9()) == (pow_mod(av, (2 * acc) as nat, N9()) * av) % N9());
+                    lemma_mod_bound(pow_mod(av, (2 * acc) as nat, N9()) * av, N9());
+                }
             }
             w <<= 1;
+            proof {
+                let bit: int = if w0 >= 0x8000000000000000u64 { 1 } else { 0 };
+                assert(x * (2 * m) == 2 * (x * m)) by(nonlinear_arith);
+                acc = 2 * acc + bit;
+                m = 2 * m;
+            }
+        }
+        proof {
+            mn_p2_64();
+            assert(x * m == x * 0x1_0000_0000_0000_0000int);
+            assert(acc == x);
+            assert(mn_top(e@, it.index@ as int + 1) == mn_top(e@, it.index@ as int) * 0x1_0000_0000_0000_0000int + e@[4 - (it.index@ as int + 1)] as int);
         }
     }
+    proof { mn_top4(e@); }
     r
 }
 
-#[verifier::external_body]
 fn mod_n_inv(a: &U256) -> (r: U256)
     requires val4(a@) < N9()
     ensures val4(r@) == inv_n9(val4(a@)),
 {
+    proof { mn_consts(); lemma_params9(); }
     mod_n_pow(a, &SM9_N_MINUS_TWO)
 }
 
@@ -235,12 +581,12 @@ fn mod_n_from_hash(ha: &[u8]) -> (h: U256)
     h
 }
 
-#[verifier::external_body]
 fn getu64(bytes: &[u8]) -> (r: u64)
     requires bytes@.len() >= 8
     ensures r as int == be_val(bytes@.subrange(0, 8)),
 {
     let mut arr = [0u8; 8];
     arr.copy_from_slice(&bytes[..8]);
+    proof { assert(arr@ =~= bytes@.subrange(0, 8)); }
     shim_from_be_u64(&arr)
 }
